@@ -41,7 +41,8 @@ def solver_job(N, iters):
         m = ex.int('density')
         mc = ex.concretize(m.t, 2, 12)
         obj = agp.Objective(ex)
-        s, prob = agp.new_solver(ex, N, obj, 2.5, 1e-9, 1000, density=Sym(z3.IntVal(mc)) if False else mc)
+        # a coarse eps: the configured density must be honoured whatever the accuracy asked for
+        s, prob = agp.new_solver(ex, N, obj, 2.5, 0.3 if N % 2 == 0 else 1e-9, 1000, density=mc)
         ex.prove(s.evolvent.evolventDensity == mc and s.method.evolvent is s.evolvent,
                  'C20 CONFIG: the solver\'s evolvent carries SolverParameters.evolventDensity', {'N': N, 'm': mc})
         s.DoGlobalIteration(iters if mc <= 3 else min(iters, 2))
@@ -148,6 +149,10 @@ def main():
         for sd in ((0,) if quick else (0, 1, 2)):
             cfg = dict(N=2, r=2.5, seed=sd, kpre=1, nsym=3, script=[('iter', 3)], density=m, overrides=['iter'], tags=['run-density-%d' % m])
             jobs.append((run_job, (cfg, 'N=2 density %d: 1 concrete + 2 arbitrary values, trial locations symbolic' % m)))
+    for sd in (0, 1):
+        # longer runs on a coarse grid: intervals shrink to single cells of the evolvent
+        cfg = dict(N=2, r=2.5, seed=sd, kpre=13, nsym=1, script=[('iter', 14)], density=2, overrides=['iter'], tags=['long-run-density-2'])
+        jobs.append((run_job, (cfg, 'N=2 density 2: 14 trials of a concrete run (intervals shrink to single cells; ground part)')))
     run.bound(density='symbolic integer 2..12 (solver-split), N = 2..5, non-symmetric boxes; first 2 iterations (3 for density <= 3) with arbitrary '
                       'objective values; whole runs with symbolic trial locations for N = 2, density 2 (thorough: 3)')
     run.not_covered('densities above 12; N*m > 50 (binary64 exactness of the descent); symbolic boxes (C05/C07 box clause)')
@@ -167,7 +172,7 @@ def main():
         rr['cex'] = [x for x in rr.get('cex', []) if x['detail'].get('level') != 'c20']
     agp.confirm(run, WANT)
     run.finish('the solver builds its evolvent with the configured density and every trial coordinate is lower + (j+1/2)(upper-lower)/2^m',
-               vacuity=['density-2', 'density-7', 'density-12', 'image-density-2', 'image-density-12', 'run-density-2'])
+               vacuity=['density-2', 'density-7', 'density-12', 'image-density-2', 'image-density-12', 'run-density-2', 'long-run-density-2'])
 
 
 if __name__ == '__main__':
